@@ -11,9 +11,7 @@ pub open spec fn para_view(p: Paragraph) -> Seq<(Seq<char>, Seq<char>)> {
 }
 
 // ---- printed shape ----
-pub open spec fn sp() -> Seq<char> { seq![' '] }
-pub open spec fn lf() -> Seq<char> { seq!['\n'] }
-pub open spec fn colon() -> Seq<char> { seq![':'] }
+// sp(), lf(), colon(): ../common/text_consts.rs
 
 /// " line\n" for every line
 pub open spec fn cont_lines(ls: Seq<Seq<char>>) -> Seq<char>
